@@ -1,8 +1,14 @@
 (* C09 — LSH and batching never invent pairs and never lose exact duplicates. *)
 From Coq Require Import ZArith QArith List Permutation.
-From PV Require Import Gen.DomainConst Gen.CloneConst Clone.Pairs Clone.PairsFacts Clone.PairsProofs Clone.PairsBatch Clone.PairsOrder Clone.PairsWitness.
+From PV Require Import Gen.DomainConst Gen.CloneConst Clone.Pairs Clone.PairsFacts Clone.PairsProofs Clone.PairsBatch Clone.PairsOrder Clone.PairsWitness Tie.CloneTie.
 Import ListNotations.
 Open Scope Z_scope.
+
+(* tie to the code: classify / overlapping / should_include of the model agree with the decision tables the translator
+   evaluated from classifyCloneType / isOverlappingLocation / shouldIncludeFragment of the current Go source *)
+Theorem C09_decision_tables : clone_tables_agree = true /\ clone_tables_nonempty = true.
+Proof. exact clone_tables_agree_ok. Qed.
+Print Assumptions C09_decision_tables.
 
 Section C09.
 Variable sim : frag -> frag -> Q.
